@@ -177,8 +177,17 @@ def handleTx (toks : List String) (impl : String) : Out :=
         s.key.1 < 32768 && c.regs.contains pk &&
           !(c.mode == 1 && pk.2 == Role.responder) && !(c.mode == 2 && pk.2 == Role.initiator)
       let distinct := (senders.map (·.key)).eraseDups.length == senders.length
+      let dirOk (s : Sender) : Bool :=
+        let pk := peerKey s.key
+        !(c.mode == 1 && pk.2 == Role.responder) && !(c.mode == 2 && pk.2 == Role.initiator)
+      let allValid := senders.all fun s => s.key.1 < 32768 && s.payloads.all (fun p => 1 ≤ p.length ∧ p.length ≤ 65535)
+      let catchAll := c.regs.any (fun r => r.1 == 0xabcd)
+      let unreg := senders.filter fun s => !c.regs.contains (peerKey s.key) && !s.payloads.isEmpty
       let spec :=
-        if distinct && senders.all okSender then
+        if distinct && allValid && !catchAll && senders.all dirOk && !unreg.isEmpty then
+          -- some sender has no receiver at the peer: the connection must end with that error
+          "||".intercalate (unreg.map fun s => s!"err=unknown-proto:{s.key.1} *")
+        else if distinct && senders.all okSender then
           let ds : List Delivery := senders.flatMap fun s =>
             (s.payloads.filter (fun p => 1 ≤ p.length ∧ p.length ≤ 65535)).map fun p => (peerKey s.key, p)
           if senders.all (fun s => s.payloads.all (fun p => 1 ≤ p.length)) then
